@@ -278,12 +278,13 @@ pub fn run(args: &Args) -> Report {
         }
     }
     let plan = Plan {
-        ks: if thorough { vec![0, 1, 2, 3, 4] } else { vec![0, 1, 2, 3] },
+        ks: if thorough { vec![0, 1, 2, 3, 4] } else { vec![0, 1, 2] },
         env: 0,
         fault: 0,
-        total_wall: Duration::from_secs(if thorough { 1200 } else { 30 }),
+        total_wall: Duration::from_secs(if thorough { 1200 } else { 50 }),
         max_execs_per_case: 1_000_000,
         required_witnesses: W_DROPPED_FULL | W_HOST_TOO_LONG | W_SHORT_PAYLOAD | W_STREAM_DONE | W_ALL_DELIVERED,
+        adaptive: thorough,
         witness_names: &[("dropped_because_buffer_full", W_DROPPED_FULL), ("host_too_long_refused", W_HOST_TOO_LONG), ("payload_shorter_than_4_bytes", W_SHORT_PAYLOAD), ("stream_completed_alongside", W_STREAM_DONE), ("burst_fully_delivered", W_ALL_DELIVERED)],
     };
     rep.rule = "psim: two real endpoints. Field sweep: host length {0,1,255,256,300} x payload length {0..5,1500,65535,65536} x flow id {0,1,2^32-1} x port {0,65535}, followed by a well-formed datagram. Bursts of size+2 numbered datagrams into datagram_buffer_size {1,2,3}, reader concurrent or late, with and without a stream transfer on the same connection, every schedule <= k deviations. Oracle: send result (DatagramHostTooLong iff host > 255, then nothing on the wire), frames on the wire equal the accepted datagrams in order, and against a reference model of the bounded receive queue (a datagram is queued iff the queue has room when the receiving task takes it in): the application receives exactly the queued datagrams, in order, all four fields equal; connection tasks never end; the stream completes intact".into();
